@@ -75,3 +75,18 @@ META["C36"] = dict(
          "with the providers present at each quiescent point; component IDs round-trip for a set of request strings.",
     note="The bus and the directive instance are harness fakes; resolver errors (the error-return path of the loop) are not exercised.",
 )
+REGISTRY["C32"] = ("fn", "c32")
+META["C32"] = dict(technique=_FN_TECH, note=_FN_NOTE,
+    text="SolicitMerge.tla: the two-pointer merge transcribed from FindMatchingHashes equals set intersection, is ascending and duplicate-free for all 1 225 pairs "
+         "of ascending lists; every pair replayed on the real function with the inputs mutated afterwards (clone independence). SolicitHash.tla session part: "
+         "ComputeSessionID equal exactly for equal unordered peer pairs, symmetric.")
+REGISTRY["C30"] = ("solicit", "c30")
+REGISTRY["C31"] = ("solicit", "c31")
+META["C30"] = dict(technique=_FN_TECH + "; constraint clauses replayed on the real solicit controller with a harness-played control stream", note=_FN_NOTE,
+    text="SolicitHash.tla: the framing fed to the hash is injective over all (protocol id, context) pairs on a two-letter alphabet up to length 2 (every pair with "
+         "coinciding concatenation); replayed on ComputeProtocolHash. SolicitMatch.tla: for every small set of local solicitations the hashes announced on the "
+         "control stream of a link and the solicitations offered an incoming stream are exactly those whose protocol/context match and whose peer/transport constraints admit the link.")
+META["C31"] = dict(technique="TLC exhaustive model checking of SolicitOwn.tla (statement-level interleavings); gated and random concurrent rounds on the real value and controller; outcomes validated by TLC (SolicitOwnMon.tla)",
+    note="Interleavings on the real wrapper are forced with a stream whose Close blocks (gate inside the critical section) plus random races; not every statement-level interleaving of the model is replayed.",
+    text="AtMostOneOwner / AcceptedNeverClosed / ClosedNeverReturns: proved on the statement-level model for all interleavings; on the real code for every small set of "
+         "matching local solicitations sharing one incoming stream, for the schedule 'Close parked inside stream.Close while Accept starts', and for random races.")
